@@ -305,7 +305,7 @@ def run(chk: Check, model):
     ok = len(st) in (1, 2) and len(comps) == 2 and all(e.key == st[0].key for e in st) and st[0].key[0] == "tuple"
     if ok:
         k = st[0].key[1]
-        ok = k[0][0] == "attr" and k[0][2] == "name" and k[0][1][2] == "output_node" and k[1][1][2] == "input_node" and len(st[0].loops) == 2
+        ok = k[0][0] == "attr" and k[0][2] == "name" and k[0][1][2] == "output_node" and k[1][1][2] == "input_node" and any(len(e.loops) == 2 for e in st)
     # the communication delay stored for a connection is that connection's own distribution (Deterministic(min) for a trainable one)
     class _V:
         def __init__(self, term):
@@ -343,7 +343,8 @@ def _conn_table(r, fi):
     """The per-connection table(s) of the generator: the stores keyed by a (sender, receiver) pair inside the loop over every node's
     outputs, and the components stored per connection with the projection that gets each back out of its entry (None: the entry
     itself).  The connection and its communication delay may sit in two tables or side by side in one entry (a pair, a record)."""
-    st = [e for e in r.events if e.kind == "store_sub" and e.func == fi.qualname and e.key is not None and e.key[0] == "tuple" and len(e.key[1]) == 2 and len(e.loops) == 2
+    # (filled inside the loop over the nodes' outputs, or in a second pass over the table that loop filled)
+    st = [e for e in r.events if e.kind == "store_sub" and e.func == fi.qualname and e.key is not None and e.key[0] == "tuple" and len(e.key[1]) == 2 and len(e.loops) in (1, 2)
           and not (e.term[0] == "obj" and e.term[1] == "Edge")]
     comps = []
     for e in st:
